@@ -357,6 +357,7 @@ def case_joint(ctx, inp):
 
 CASES = {"joint": case_joint, "tensordot": case_tensordot, "prod": case_prod, "einsum": case_einsum, "contract": case_contract,
          "tsqrplan": case_tsqrplan, "qr": case_qr, "svd": case_svd}
+CASES = {k: U.pure_sources(v) for k, v in CASES.items()}
 
 
 # ---------------------------------------------------------------------------------------------
